@@ -73,6 +73,12 @@ Proof.
   rewrite dec_enc_log. reflexivity.
 Qed.
 
+Lemma b2_nil k : b2 k [] = [].
+Proof. reflexivity. Qed.
+
+Lemma b5_nil k : b5 k [] = [].
+Proof. unfold b5. destruct (k_restored k); reflexivity. Qed.
+
 Lemma b3_nil k starts ev ws : b3 k starts ev ws [] = [].
 Proof.
   unfold b3. destruct (sx_nat (sx_nth ev 0)) as [|[|[|[|n]]]]; try reflexivity;
@@ -90,6 +96,32 @@ Definition rel (t : thread) (v : vst) (m : minfo) : Prop :=
      t_status t = Active /\ m_ok m = false /\ m_data m = t_data t ++ pend v /\
      v_fed v = length (m_data m) /\ v_fed v <= v_size v /\ (v_pending v <> None -> v_fed v = v_size v)) /\
   (m_ok m = true -> t_status t = Flushed /\ m_data m = t_data t).
+
+Lemma rel_dead t v' m' :
+  m_size m' = t_size t -> v_size v' = t_size t -> v_live v' = false -> m_fin m' = true -> m_ok m' = false ->
+  rel t v' m'.
+Proof.
+  intros E1 E2 E3 E4 E5. unfold rel. rewrite E3, E4, E5.
+  split; [exact E1|]. split; [exact E2|]. split; [reflexivity|]. split; intros; discriminate.
+Qed.
+
+Lemma rel_flushed t v' m' :
+  m_size m' = t_size t -> v_size v' = t_size t -> v_live v' = false -> m_fin m' = true ->
+  t_status t = Flushed -> m_data m' = t_data t -> rel t v' m'.
+Proof.
+  intros E1 E2 E3 E4 E5 E6. unfold rel. rewrite E3, E4.
+  split; [exact E1|]. split; [exact E2|]. split; [reflexivity|]. split; [intros; discriminate|auto].
+Qed.
+
+Lemma rel_live t v' m' :
+  m_size m' = t_size t -> v_size v' = t_size t -> v_live v' = true -> m_fin m' = false ->
+  t_status t = Active -> m_ok m' = false -> m_data m' = t_data t ++ pend v' ->
+  v_fed v' = length (m_data m') -> v_fed v' <= v_size v' -> (v_pending v' <> None -> v_fed v' = v_size v') ->
+  rel t v' m'.
+Proof.
+  intros E1 E2 E3 E4 E5 E6 E7 E8 E9 E10. unfold rel. rewrite E3, E4, E6.
+  split; [exact E1|]. split; [exact E2|]. split; [reflexivity|]. split; [auto 10|intros; discriminate].
+Qed.
 
 Definition R3 (ts : list thread) (vs : list vst) (ws : list minfo) : Prop :=
   length vs = length ts /\ length ws = length ts /\
@@ -256,10 +288,10 @@ Lemma leaf r dev ws j t m s' l t' v' m' starts :
   tact (r_st r) j t s' l t' -> rel t' v' m' ->
   Inv {| r_st := s'; r_v := upd (r_v r) j v' |} (apply_writes dev l) (upd ws j m') /\
   (compat starts s' ->
-   b2 k l = [] /\ b5 k l = [] /\
+   b2 k l = [] /\
    (if forallb (in_range (c_base c * SS + nth j starts 0 / SS * SS)
                          (c_base c * SS + (nth j starts 0 + m_size m + SS - 1) / SS * SS)) l
-    then [] else [3%Z]) = []).
+    then [] else [3%Z]) = [] /\ b5 k l = []).
 Proof.
   intros (HR & -> & H3) Hj Hsz (T1 & T2 & T3 & T4 & T5 & T6) Hrel. split.
   - unfold Inv. cbn [r_st r_v]. split; [auto|]. split; [symmetry; exact T5|].
@@ -267,7 +299,7 @@ Proof.
   - intros Hc. assert (E : nth j starts 0 = t_start t).
     { rewrite <- T3. apply Hc. rewrite T2. apply nth_error_upd_eq. eapply nth_error_lt; eauto. }
     destruct (T6 HR) as (S1 & S2 & S3). rewrite E, Hsz. unfold b2, b5, span_ok in *. unfold SS, c in *.
-    rewrite S1, S2. split; [reflexivity|]. split; [|reflexivity].
+    rewrite S1, S2. split; [reflexivity|]. split; [reflexivity|].
     destruct (k_restored k) as [r0|]; [|reflexivity].
     rewrite (S3 r0 eq_refl). reflexivity.
 Qed.
